@@ -18,6 +18,17 @@ TABLE = {
         note="closed-form derivatives (self-tested against finite differences); float64; monomial basis "
              "determines constant-coefficient operators of order<=2 only",
         ref="DESIGN.md §4 C01"),
+    "C02": dict(
+        technique="runtime oracle monitor: real DynamicLoss.evaluate vs documented differential expression from closed-form derivatives",
+        level="exploration",
+        text="The residual returned by the real (decorated) evaluate of the six built-in equations is compared with "
+             "the documented expression evaluated in numpy from hand-derived derivatives of analytic fields, in "
+             "parameter regimes where each term in turn dominates (so a missing Tmax, a wrong sign or swapped "
+             "parameters cannot hide), for Tmax in {1, 0.37, 10}, every GLV key permutation and both eq_params "
+             "layouts; exact solutions (Burgers x/(c+Tmax t), Fisher constant and logistic states, OU stationary "
+             "Gaussian, GLV exponential and equilibria, divergence-free field, Poiseuille flow) must give ~0.",
+        note="GLV read in log form (see DESIGN §5); abstract FPE with user drift/diffusion other than OU not covered",
+        ref="DESIGN.md §4 C02"),
     "C03": dict(
         technique="runtime oracle + metamorphic monitor on (total, terms) of the real losses with harness-written equations",
         level="exploration",
